@@ -134,6 +134,27 @@ var c13Nulls = []nullKind{
 	{"Add(nil)", func() jen.Code { return jen.Add(nil) }},
 	{"List(Add(),nil)", func() jen.Code { return jen.List(jen.Add(), nil) }},
 	{"Custom{}(Null())", func() jen.Code { return jen.Custom(jen.Options{Separator: ","}, jen.Null()) }},
+	{"Null() cloned 150 times", func() jen.Code {
+		s := jen.Null()
+		for i := 0; i < 150; i++ {
+			s = s.Clone()
+		}
+		return s
+	}},
+	{"Null() wrapped in 150 nested Add", func() jen.Code {
+		var c jen.Code = jen.Null()
+		for i := 0; i < 150; i++ {
+			c = jen.Add(c)
+		}
+		return c
+	}},
+	{"nil wrapped in 101 nested List", func() jen.Code {
+		var c jen.Code
+		for i := 0; i < 101; i++ {
+			c = jen.List(c)
+		}
+		return c
+	}},
 }
 
 // c13RealStyle selects what the real items are: identifiers (0), the last one a line comment
@@ -427,10 +448,10 @@ func runC13(r *ev.Recorder) {
 		{"two null items of rotating kinds around every item", func(site int, name string, items []jen.Code) []jen.Code {
 			out := []jen.Code{}
 			for i, it := range items {
-				out = append(out, c13Nulls[(site+i)%len(c13Nulls)].mk(), it, c13Nulls[(site+2*i+1)%len(c13Nulls)].mk())
+				out = append(out, c13Nulls[(site+i)%16].mk(), it, c13Nulls[(site+2*i+1)%16].mk())
 			}
 			if len(items) == 0 {
-				out = append(out, c13Nulls[site%len(c13Nulls)].mk())
+				out = append(out, c13Nulls[site%16].mk())
 			}
 			return out
 		}},
